@@ -681,6 +681,11 @@ def prior_states(rng, k):
         steps += [("line", reg_line(r)) for r in regs[half:]]
         out.append(steps)
     out[0] = []     # the empty configuration
+    if k > 1:
+        # string lists registered with a default of exactly one element, not yet given by any file: the
+        # first file that gives them more elements grows a vector that was allocated for one (seeded
+        # change C14-11x14 grew vectors by half, so a capacity of one never grew)
+        out[1] = [("line", reg_line(((b"a",), "l", 0, hx(b"one"), 1))), ("line", reg_line(((b"B",), "l", 0, hx(b"q"), 0)))]
     return out
 
 
@@ -743,6 +748,11 @@ def gen_c14(tier, seed):
             for after in (b"", b"\n", b";\nb \"later\";\n", b";\n" + b"// filler line\n" * 40 + b"c \"far\";\n", b" }"):
                 bodies.append(("escape-edge", b"a \"" + pre + t + b"\"" + after))
                 bodies.append(("escape-edge", b"a (\"" + pre + t + b"\", \"" + t + b"\")" + after))
+    for nel in (2, 3, 4, 5, 9, 17):
+        items = b", ".join(b"e%d" % j for j in range(nel))
+        bodies.append(("list-grows", b"a (" + items + b");\n"))
+        bodies.append(("list-grows", b"B " + items + b"\n"))
+        bodies.append(("list-grows", b"a (" + items + b"\n"))          # cut short: rejected, nothing may change
     for i in range(400 if tier == "quick" else 20000):
         n = rng.choice([1, 2, 3, 8, 20, 60])
         if rng.random() < 0.5:
